@@ -1015,7 +1015,14 @@ func (r *Raft) leadershipTransfer(id ServerID, address ServerAddress, repl *foll
 	for atomic.LoadUint64(&repl.nextIndex) <= r.getLastIndex() {
 		err := &deferError{}
 		err.init()
-		repl.triggerDeferErrorCh <- err
+		// The replication routine may be gone (we stepped down) or busy while
+		// an earlier request still sits in the channel: never block on it.
+		select {
+		case repl.triggerDeferErrorCh <- err:
+		case <-stopCh:
+			doneCh <- nil
+			return
+		}
 		select {
 		case err := <-err.errCh:
 			if err != nil {
